@@ -310,6 +310,42 @@ def build_dcop(case, cost_style="dict", agents=None):
     return dcop
 
 
+def gen_propagation_chain_case(rng):
+    """Chain (with side leaves) of agreement constraints on 2-value domains; a weak preference near one end and a
+    contradicting preference exactly twice as strong several hops away: unique optimum = everybody follows the strong
+    preference. The information has to travel the whole chain and overrides messages already sent several times."""
+    objective = rng.choice(["min", "max"])
+    sign = 1 if objective == "min" else -1
+    n = rng.randint(4, 7)
+    names = sorted(_names(rng, n + 2))
+    rng.shuffle(names)
+    chain, leaves = names[:n], names[n:]
+    dom = rng.choice([[0, 1], [1, 0], ["a", "b"], [5, 6]])
+    variables = [{"name": nm, "domain": list(dom), "initial": None, "costs": None} for nm in chain + leaves]
+    P = 10 * rng.randint(1, 3)
+    s = rng.randint(1, 3)
+
+    def agree(x, y, k):
+        return {"name": "c%02d" % k, "scope": [x, y], "kind": "matrix", "table": [0, sign * P, sign * P, 0]}
+
+    cons = []
+    for i in range(n - 1):
+        cons.append(agree(chain[i], chain[i + 1], len(cons)))
+    weak_at = rng.randint(0, 1)
+    for lf in leaves:
+        cons.append(agree(lf, chain[rng.randint(0, 1)], len(cons)))
+    # weak preference for dom[0] near the start, strong preference (2s) for dom[1] at the far end
+    cons.append({"name": "c%02d" % len(cons), "scope": [chain[weak_at]], "kind": "matrix", "table": [0, sign * 2 * s]})
+    cons.append({"name": "c%02d" % len(cons), "scope": [chain[-1]], "kind": "matrix", "table": [sign * 4 * s, 0]})
+    case = {"objective": objective, "variables": variables, "constraints": cons, "shape": "propagation-chain", "palette": "agreement"}
+    best, args = brute_force(case)
+    if len(args) != 1:
+        return None
+    case["optimum"] = best
+    case["optimal_assignment"] = args[0]
+    return case
+
+
 def gen_tree_factor_case(rng, max_vars=7, max_dom=3, objective=None, unique=True, palettes=("distinct", "neg"),
                          var_costs=True, forest=True, tries=60):
     """Acyclic factor graph (tree or forest) with, if `unique`, exactly one optimal assignment."""
